@@ -42,7 +42,7 @@ Theorem C09w_undelegations_execute : forall W w h claim msgs,
   pick_validator w A_hub h claim = Some msgs -> hp_underlying (h_params h) = usei ->
   w_env W = w_env w -> DelWf (w_env w) ->
   exists e',
-    Exec W (tag A_hub msgs) (set_env W e') (length msgs) /\ (length msgs <= 8)%nat /\
+    Exec W (tag A_hub msgs) (set_env W e') (length msgs) /\ (length msgs <= length VALS)%nat /\
     DelWf e' /\
     delegated e' A_hub + claim = delegated (w_env w) A_hub /\ usum msgs = claim /\
     e_unb e' = e_unb (w_env w) ++ map (unb_entry (e_now (w_env w) + e_ut (w_env w))) msgs /\
